@@ -446,13 +446,17 @@ Definition body_records (dc : nat) (lines' : list text) : list (list text) :=
 Definition type_columns (flt : sfilter) (n : nat) (body : list (list text)) : res (list (kind * list val)) :=
   res_map (map (filter_col flt)) (res_list (map infer_col (cols_of [] n body))).
 
+(* column labels pass the StoreFilter in the branches of from_delimited that say so (regenerated: frame.py:1742-1750) *)
+Definition label_filter_on (dc : nat) : bool :=
+  if Nat.ltb 1 dc then sf_hier_columns_filtered else sf_flat_columns_filtered.
+
 Definition decode_label_cell (flt : sfilter) (v : val) : val :=
   match v with VStr s => decode_str flt s | _ => v end.
 
 (* the header rows: genfromtxt on each row alone, the leading index_depth cells set aside (apex);
-   StoreFilter only when columns_depth > 1 (frame.py:1740-1748) *)
+   StoreFilter as the source says per branch (label_filter_on; today: only when columns_depth > 1) *)
 Definition header_rows (flt : sfilter) (di dc n : nat) (head : list text) : res (list (list val)) :=
-  res_map (fun hrows => if Nat.ltb 1 dc then map (map (decode_label_cell flt)) hrows else hrows)
+  res_map (fun hrows => if label_filter_on dc then map (map (decode_label_cell flt)) hrows else hrows)
     (res_list (map (fun h =>
         let cells := gen_split h in
         if negb (Nat.eqb (length cells) n) then Err "OutOfModel:ragged header"%string
@@ -556,7 +560,7 @@ Definition level_ok (flt : sfilter) (vs : list val) : bool := col_ok flt (level_
 Definition label_cell_ok (flt : sfilter) (dc : nat) (v : val) : bool :=
   renderable v &&
   match infer_cell (render_val flt v) with
-  | Ok w => val_eqb (if Nat.ltb 1 dc then decode_label_cell flt w else w) v
+  | Ok w => val_eqb (if label_filter_on dc then decode_label_cell flt w else w) v
   | Err _ => false
   end.
 
@@ -590,3 +594,16 @@ Definition dom_typed (c : cfg) (f : tframe) : bool :=
 
 Definition dom (c : cfg) (f : tframe) : bool :=
   dom_shape c f && dom_axes c f && dom_text c f && dom_typed c f.
+
+(* ------------------------------------------------------------------ well-formed store filters
+   Every marker the encoder writes is in the decoder's set for the same marker and in none of the sets the
+   decoder tests before it (to_nan, to_none, to_posinf, to_neginf in that order, store_filter.py:155-161). *)
+Definition marker_text (flt : sfilter) (v : val) : string := st (render_val flt v).
+Definition filter_wf (flt : sfilter) : bool :=
+  mem_str (marker_text flt VNaN) (f_to_nan flt) &&
+  (negb (mem_str (marker_text flt VNone) (f_to_nan flt)) && mem_str (marker_text flt VNone) (f_to_none flt)) &&
+  (negb (mem_str (marker_text flt (VInf false)) (f_to_nan flt)) && negb (mem_str (marker_text flt (VInf false)) (f_to_none flt)) &&
+   mem_str (marker_text flt (VInf false)) (f_to_posinf flt)) &&
+  (negb (mem_str (marker_text flt (VInf true)) (f_to_nan flt)) && negb (mem_str (marker_text flt (VInf true)) (f_to_none flt)) &&
+   negb (mem_str (marker_text flt (VInf true)) (f_to_posinf flt)) && mem_str (marker_text flt (VInf true)) (f_to_neginf flt)).
+Definition is_marker (v : val) : bool := match v with VNaN | VNone | VInf _ => true | _ => false end.
